@@ -18,6 +18,7 @@ RULE = ('assembly: the three G-ASM families of C05 (random multi-label programs,
         'and >= 1 multi-byte instruction; distinct by source hash.')
 
 
+@driver.hang_is_failure(lambda why: ('fail', why, {}))
 def asm_case(items, scratch, style=0):
     text = asmgen.render(items, style)
     sp = os.path.join(scratch, 'p.S')
@@ -43,6 +44,7 @@ def asm_case(items, scratch, style=0):
     return ('ok' if ok else 'fail'), why, st
 
 
+@driver.hang_is_failure(lambda why: ('fail', why, {}))
 def x_case(src, scratch):
     sp = os.path.join(scratch, 'p.x')
     open(sp, 'w', encoding='latin-1').write(src)
@@ -138,6 +140,8 @@ def _sweep_worker(chunk):
         n += 1
         if v == 'fail':
             fails.append((list(key), [list(i) for i in items], why))
+            if len(fails) >= 3:
+                break        # three failing members of the family are enough (each may have cost a time-out)
     return n, fails
 
 
